@@ -24,6 +24,8 @@ Scheme(name, m) ==
       [] name = "trapezoidal_rule" -> <<<<<<0, 1, 1>>, <<1, -1, 2>>>>, <<<<0, -1, 1>>, <<1, -1, 2>>>>>>       \* (1-z/2) x1 - (1+z/2) x0
       [] name = "hod" -> <<<<<<0, 1, 1>>>>, [j \in 1..m |-> <<2 * j - 1, -2, Fact(2 * j - 1)>>], <<<<0, -1, 1>>>>>>
 \* documented start-up of hod when no previous value is given:  x_{-1} = x_0 - HodInc(z/2) (1 - z/2) x_0
+\* With normalisation p every state the scheme produces is scaled to unit p-norm, the start-up state x_{-1} (or the
+\* previous value handed over) included:  x_{k+1} = N_p(x_{k-1} + HodInc(z) x_k),  x_{-1} := N_p(x_{-1}).
 \* as the pair (Q, R):  x_{-1} = x_0 - Q(z) R(z) x_0
 HodStart(m) == [Q |-> HodIncHalf(m), R |-> <<<<0, 1, 1>>, <<1, -1, 2>>>>]
 
